@@ -184,7 +184,11 @@ static bool reuse_field(BaseField *bf, char t, const std::string& text)
 	case 'i': if (ut != FieldTrait::ft_int) return false; static_cast<Field<int, 0> *>(bf)->set_from_raw(text); return true;
 	case 'c': return false;    // Boolean fields share the char realm type but hold a bool: no re-use for chars
 	case 'f': if (ut != FieldTrait::ft_float) return false; static_cast<Field<fp_type, 0> *>(bf)->set_from_raw(text); return true;
-	default: if (ut != FieldTrait::ft_string) return false; static_cast<Field<f8String, 0> *>(bf)->set_from_raw(text); return true;
+	default:
+		if (ut != FieldTrait::ft_string && ut != FieldTrait::ft_data)   // Field<f8String> reports ft_data
+			return false;
+		static_cast<Field<f8String, 0> *>(bf)->set_from_raw(text);
+		return true;
 	}
 }
 
